@@ -170,10 +170,12 @@ RAISEDV == "#-1"
         }
   }
 #! PINNED
- @@ ("fiber_multi_signal_raise:counter" :> {"mr0"}) @@ ("fiber_multi_signal_raise:head" :> {"mr1"}) @@ ("fiber_multi_signal_raise:next" :> {"mr3"})
- @@ ("fiber_multi_signal_raise_strict:counter" :> {"mr0"}) @@ ("fiber_multi_signal_raise_strict:head" :> {"mr1"}) @@ ("fiber_multi_signal_raise_strict:next" :> {"mr3"})
- @@ ("fiber_multi_signal_wait:counter" :> {"mw2"}) @@ ("fiber_multi_signal_wait:head" :> {"mw3"})
+ @@ ("fiber_signal_wait:waiter:W" :> {"sw4"}) @@ ("fiber_signal_raise:waiter:W" :> {"sr1"})
+ @@ ("fiber_multi_signal_raise:counter:R" :> {"mr0"}) @@ ("fiber_multi_signal_raise:head:R" :> {"mr1"}) @@ ("fiber_multi_signal_raise:next:R" :> {"mr3"})
+ @@ ("fiber_multi_signal_raise_strict:counter:R" :> {"mr0"}) @@ ("fiber_multi_signal_raise_strict:head:R" :> {"mr1"}) @@ ("fiber_multi_signal_raise_strict:next:R" :> {"mr3"})
+ @@ ("fiber_multi_signal_wait:counter:R" :> {"mw2"}) @@ ("fiber_multi_signal_wait:head:R" :> {"mw3"})
  @@ ("compare_and_swap2" :> {"mr2", "mr4", "mw4", "mw6"})
+ @@ ("fiber_signal_wait:waiter:CAS" :> {"sw1"}) @@ ("fiber_signal_raise:waiter:XCHG" :> {"sr0"})
 #! ACCESS
 mr0 fiber_multi_signal_raise counter
 mr1 fiber_multi_signal_raise head
